@@ -536,22 +536,27 @@ ctb!(c09_copy_to_bytes_default_2, 2);
 // @h props=C09 tier=thorough group=buf note=default_copy_to_bytes(4)
 ctb!(c09_copy_to_bytes_default_4, 4);
 
-// @h props=C09,C12 tier=quick group=buf note=Chain::copy_to_bytes_straddling
+// @h props=C09,C12 tier=quick group=buf note=Chain::copy_to_bytes_straddling(first_half_with_several_chunks)
 #[kani::proof]
 #[kani::unwind(6)]
 #[kani::stub(core::slice::index::slice_index_fail, stub_slice_index_fail)]
 pub fn c09_chain_copy_to_bytes() {
-    let a = SymBuf::<2>::any();
+    // the first half is a lawful buffer made of 1-byte chunks (so that what is left of it when the copy crosses into b
+    // may still consist of several chunks), the second half has symbolic chunking
+    let a = StepBuf::<3, 1> { data: kani::any(), len: any_len(3), pos: 0 };
     let b = SymBuf::<2>::any();
-    let mut m = Model::concat(&Model::of(&a), &Model::of(&b));
-    kani::assume(m.rem() >= 2);
+    let ma = Model { d: [a.data[0], a.data[1], a.data[2], 0, 0, 0, 0, 0], len: a.len, pos: 0 };
+    let mut m = Model::concat(&ma, &Model::of(&b));
+    kani::assume(m.rem() >= 3);
+    let a_len = a.len;
     let mut c = a.chain(b);
-    let out = c.copy_to_bytes(2);
-    assert!(same_bytes(&out, &m.d[0..2]));
-    m.pos += 2;
+    let out = c.copy_to_bytes(3);
+    assert!(same_bytes(&out, &m.d[0..3]));
+    m.pos += 3;
     check_state(&c, &m);
     core::mem::forget(out);
-    kani::cover!(c.first_ref().len == 1, "value straddles a and b");
+    kani::cover!(a_len == 2, "two chunks of a, then one byte of b");
+    kani::cover!(a_len == 1, "one byte of a, two of b");
     end_reached!();
 }
 
